@@ -30,6 +30,8 @@ structure SInv (db : DB) (st : St) (lo : Int) : Prop where
   state : loadState db = some st
   lNonneg : 0 ≤ st.lastBlockHeight
   ihPos : 1 ≤ st.initialHeight
+  /-- the state is at genesis or at/above the initial height -/
+  lRange : st.lastBlockHeight = 0 ∨ st.initialHeight ≤ st.lastBlockHeight
   vRec : ∀ h, lo ≤ h → h ≤ saveNext st + 1 → ∃ c f, loadInfo db (.vals h) = some (c, f) ∧ c ≤ h ∧
     (f = true → c = h ∨ h % interval = 0)
   vLoad : ∀ h, lo ≤ h → h ≤ saveNext st + 1 → valsLoadable db h = true
@@ -49,7 +51,7 @@ theorem saveNext_pos (st : St) (h1 : 0 ≤ st.lastBlockHeight) (h2 : 1 ≤ st.in
 
 theorem SInv.mono {db : DB} {st : St} {lo lo' : Int} (h : SInv db st lo) (hle : lo ≤ lo') :
     SInv db st lo' :=
-  { state := h.state, lNonneg := h.lNonneg, ihPos := h.ihPos
+  { state := h.state, lNonneg := h.lNonneg, ihPos := h.ihPos, lRange := h.lRange
     vRec := fun a h1 h2 => h.vRec a (by omega) h2
     vLoad := fun a h1 h2 => h.vLoad a (by omega) h2
     vAgree := fun a b c1 f1 c2 f2 h1 h2 h3 => h.vAgree a b c1 f1 c2 f2 (by omega) h2 h3
@@ -94,7 +96,7 @@ theorem SInv.congr_upto {db db' : DB} {st : St} {lo : Int} (h : SInv db st lo)
     (hv : ∀ a, a ≤ saveNext st + 1 → loadInfo db' (.vals a) = loadInfo db (.vals a))
     (hp : ∀ a, a ≤ saveNext st → loadInfo db' (.params a) = loadInfo db (.params a))
     (hs : loadState db' = loadState db) : SInv db' st lo := by
-  refine { state := hs.trans h.state, lNonneg := h.lNonneg, ihPos := h.ihPos, vRec := ?_, vLoad := ?_,
+  refine { state := hs.trans h.state, lNonneg := h.lNonneg, ihPos := h.ihPos, lRange := h.lRange, vRec := ?_, vLoad := ?_,
            vAgree := ?_, vTop := ?_, pRec := ?_, pLoad := ?_, pAgree := ?_, pTop := ?_ }
   · intro a h1 h2; rw [hv a h2]; exact h.vRec a h1 h2
   · intro a h1 h2
@@ -159,7 +161,9 @@ theorem SInv.extend {db db' : DB} {st st' : St} {lo : Int} (h : SInv db st lo)
     rw [hP, if_pos rfl]
   obtain ⟨ft, htop, hcle⟩ := h.vTop
   obtain ⟨fpt, hptop, hpcle⟩ := h.pTop
-  refine { state := hS, lNonneg := by omega, ihPos := by rw [hih]; exact h.ihPos, vRec := ?_, vLoad := ?_,
+  refine { state := hS, lNonneg := by omega, ihPos := by rw [hih]; exact h.ihPos,
+           lRange := by rw [hL, hih]; right; have := h.lRange; unfold saveNext; split <;> omega,
+           vRec := ?_, vLoad := ?_,
            vAgree := ?_, vTop := ?_, pRec := ?_, pLoad := ?_, pAgree := ?_, pTop := ?_ }
   · intro a h1 h2
     rw [hn'] at h2
@@ -406,7 +410,7 @@ theorem SInv.prune_prefix {db : DB} {st : St} {lo : Int} (h : SInv db st lo) (fr
   · rw [e]; exact h.mono hlo
   · generalize applyAll db ((pruneStates db frm to).1.flatten.take j) = db' at hr
     have hst : loadState db' = loadState db := by simp only [loadState, hr.stateKey]
-    refine { state := hst.trans h.state, lNonneg := h.lNonneg, ihPos := h.ihPos, vRec := ?_, vLoad := ?_,
+    refine { state := hst.trans h.state, lNonneg := h.lNonneg, ihPos := h.ihPos, lRange := h.lRange, vRec := ?_, vLoad := ?_,
              vAgree := ?_, vTop := ?_, pRec := ?_, pLoad := ?_, pAgree := ?_, pTop := ?_ }
     · intro a h1 h2; rw [hr.vals a h1]; exact h.vRec a (by omega) h2
     · intro a h1 h2
@@ -504,7 +508,7 @@ theorem SInv.genesis (ih : Int) (hih : 1 ≤ ih) :
   generalize applyAll {} _ = db at hV hP hS ⊢
   have hn : saveNext (genesisSt ih) = ih := by simp [saveNext, genesisSt]
   have hne : ¬ ih + 1 = ih := by omega
-  refine { state := hS, lNonneg := by simp [genesisSt], ihPos := hih, vRec := ?_, vLoad := ?_,
+  refine { state := hS, lNonneg := by simp [genesisSt], ihPos := hih, lRange := Or.inl rfl, vRec := ?_, vLoad := ?_,
            vAgree := ?_, vTop := ?_, pRec := ?_, pLoad := ?_, pAgree := ?_, pTop := ?_ }
   · intro a h1 h2
     rw [hn] at h2
